@@ -607,6 +607,11 @@ def K_key(pk):
 
 
 def replay(rp):
+    if "case" not in rp and rp.get("no_longer_checks"):
+        # a `…-broken-…` file: correspondences that no longer checked (no failing input of the property)
+        from harness.corr import _c05_hist as HI
+
+        return HI.replay_broken(rp["no_longer_checks"])
     if rp["case"].get("stream") == "history":
         from harness.corr import _c05_hist as HI
 
